@@ -476,6 +476,7 @@ def operand_type_probes(pt, acc, seen, rng, n):
 
 def check_recipe(acc, probe, recipe, v, mode, opts, ctxs, seen):
     from .. import rcase
+    from . import c03
     ss, fp = opts
     probe.reset()
     c = rcase.compile_recipe(recipe, v, mode, scratch_slots=ss, frame_pointers=fp)
@@ -483,7 +484,7 @@ def check_recipe(acc, probe, recipe, v, mode, opts, ctxs, seen):
     if c.prog is None:
         acc.counters["not_emitted"] += 1
         return
-    unpaired = any(ns != nl for ns, nl in events)
+    unpaired = c03.known_mechanism(events)
     has_any = any(n[0] in ANY_NODES for n in recipes.all_nodes(recipe))
     case = {"recipe": recipe, "version": v, "mode": mode, "opts": [ss, fp], "optimizer_unpaired": unpaired}
     nviol = len(acc.violations)
